@@ -17,6 +17,12 @@ RULE = ("instances = (label-sharing topology, extents, element type, call form).
         "emits, for each plan that can be made STRICTLY cheapest, an assignment that makes it so (distinct extents on distinct free "
         "labels whenever there are <=5 of them), plus one assignment with EQUAL extents on all free labels. Forms einsum / contraction "
         "/ einsum with OIndex (C++17 only). Per instance and configuration rapidcheck draws integer-valued operands (exact oracle). "
+        "The case id carries the predicted plan (v<which_variant>, 4 operands: top-level variant then the inner triple's), whether "
+        "that plan yields the free labels in the declared order (inord|reord), -eq for the equal-extent assignment and the flags "
+        "+s / +s14 / +r14 (rank-0 intermediate in the chosen / in a non-chosen branch; non-chosen branch with a re-ordered inner "
+        "triple — the *14 conditions matter under C++14 where every branch is instantiated). Instances the mirror model expects to "
+        "be rejected at compile time are placed in units of 4 and capped at a seeded sample of 24 (thorough 80) per configuration so "
+        "that bisecting failed translation units does not eat the budget; this affects placement only, never a verdict. "
         "Non-trivial = operands have >=2 non-zero entries and (a label is summed between non-adjacent operands or >=2 free labels come "
         "from different operands); distinct = distinct (instance, configuration, draw log).")
 ASSUMPTIONS = ["reference = generic n-ary labelled summation over std::vector with __int128 / long double accumulation "
@@ -250,23 +256,23 @@ def build_cases(tier, rng):
             got = search(I, rng, model, v)
             if got: assigns.append(got + ("",))
         if len(assigns) > maxassign: assigns = assigns[:maxassign]
-        if len(free) >= 2: assigns.append(equal_free(I, rng, model) + ("-eq",))
+        if len(free) >= 2 and (tier == "quick" or rng.random() < 0.5): assigns.append(equal_free(I, rng, model) + ("-eq",))
         for ext, r, tag in assigns:
             if prod(labels_of(I), ext) > 60000: continue
             key = (len(I), r["v"], r.get("inner"), r["reord"]); stats[key] = stats.get(key, 0) + 1
             t = "d" if rng.random() < 0.7 else "f"
             add(common, net_case(t, F_EINSUM, I, ext, r, tag=tag))
-            if rng.random() < (0.25 if tier == "quick" else 0.5):
+            if rng.random() < (0.25 if tier == "quick" else 0.2):
                 add(common, net_case(t, F_CONTRACTION, I, ext, r, tag=tag))
-            if free and rng.random() < (0.3 if tier == "quick" else 0.6):
+            if free and rng.random() < (0.3 if tier == "quick" else 0.3):
                 perms = list(itertools.permutations(free)) if len(free) <= 4 else [tuple(rng.sample(free, len(free))) for _ in range(6)]
                 p = rng.choice(perms[1:]) if len(perms) > 1 and rng.random() < 0.8 else perms[0]
                 add(cxx17, net_case(t, F_EXPLICIT, I, ext, r, out=p, tag=tag))
 
     for I in topologies3(tier, rng):
-        emit(I, triplet, 3, 2 if tier == "quick" else 3)
+        emit(I, triplet, 3, 2)
     for g, I in topologies4(tier, rng):
-        emit(I, quartet, 4, 2 if tier == "quick" else 4)
+        emit(I, quartet, 4, 2 if tier == "quick" else 3)
     return common, cxx17, stats
 
 
